@@ -100,7 +100,56 @@ pub fn check_lex(src: &str) -> Option<(String, String)> {
     if !saw_error && prev_end != src.len() {
         return Some(("coverage".into(), format!("no Error token but tokens cover only {prev_end} of {} bytes", src.len())));
     }
+    // Metamorphic clause for "columns restart at zero after each line break": lengthening the text
+    // *before* a line break that lies inside a token must not change any column after it.
+    let toks = lex_prefix(src);
+    let mut tried = 0;
+    for (_, r, _) in &toks {
+        if tried >= 4 {
+            break;
+        }
+        let Some(rel) = src[r.clone()].rfind('\n') else { continue };
+        if r.len() == 1 || (r.len() == 2 && &src[r.clone()] == "\r\n") {
+            continue; // a NewLine token: judged directly above
+        }
+        tried += 1;
+        let mut q = r.start + rel;
+        if q > r.start && bytes[q - 1] == b'\r' {
+            q -= 1;
+        }
+        let line_of_break = nl[q];
+        let variant = format!("{}zz{}", &src[..q], &src[q..]);
+        let toks2 = lex_prefix(&variant);
+        if toks2.len() != toks.len() {
+            continue;
+        }
+        let comparable = toks.iter().zip(&toks2).all(|((k1, r1, _), (k2, r2, _))| {
+            k1 == k2 && (if r1.start > q { r2.start == r1.start + 2 } else { r2.start == r1.start }) && (if r1.end > q { r2.end == r1.end + 2 } else { r2.end == r1.end })
+        });
+        if !comparable {
+            continue;
+        }
+        for ((k, r1, s1), (_, _, s2)) in toks.iter().zip(&toks2) {
+            if s1.start.line > line_of_break && s1.start != s2.start {
+                return Some(("column-independence".into(), format!("token {k:?} at bytes {r1:?}: start {:?} becomes {:?} when 2 characters are inserted before the line break at byte {q} (an earlier line)", s1.start, s2.start)));
+            }
+            if s1.end.line > line_of_break && s1.end != s2.end {
+                return Some(("column-independence".into(), format!("token {k:?} at bytes {r1:?}: end {:?} becomes {:?} when 2 characters are inserted before the line break at byte {q} (an earlier line)", s1.end, s2.end)));
+            }
+        }
+    }
     None
+}
+
+fn lex_prefix(src: &str) -> Vec<(Token, std::ops::Range<usize>, koto_lexer::Span)> {
+    let mut out = vec![];
+    for t in Lexer::new(src) {
+        if t.token == Token::Error || out.len() > 2 * src.len() + 3 {
+            break;
+        }
+        out.push((t.token, t.source_bytes.clone(), t.span));
+    }
+    out
 }
 
 fn nontrivial(s: &str) -> bool {
